@@ -230,10 +230,10 @@ Proof. split; vm_compute; reflexivity. Qed.
    slot is Timeout; the oracle rejects a vector that comes back later than T with the late reply *)
 Example ex_multi_timeout :
   o_groups (observe 2 [OMulti [0; 1]%nat (Some 3000000); OSettle; OAdv 1000000; OAct 0 (mkPlan [] (AReply 70)); OSettle;
-                       OAdv 3000000; OAct 1 (mkPlan [] (AReply 71)); OSettle; OAdv 4000000])
+                       OAdv 2000000; OAdv 1000000; OAct 1 (mkPlan [] (AReply 71)); OSettle; OAdv 4000000])
   = [(GOk [OSuccess 70; OTimeout] 3000000, [0; 1]%nat)]
   /\ check_C09 2 [OMulti [0; 1]%nat (Some 3000000); OSettle; OAdv 1000000; OAct 0 (mkPlan [] (AReply 70)); OSettle;
-                  OAdv 3000000; OAct 1 (mkPlan [] (AReply 71)); OSettle; OAdv 4000000]
+                  OAdv 2000000; OAdv 1000000; OAct 1 (mkPlan [] (AReply 71)); OSettle; OAdv 4000000]
        (mkObs [mkOC OPending 0 0 true (Some 3000000) 0 None; mkOC OPending 0 0 true (Some 3000000) 1 None]
               [(GOk [OSuccess 70; OSuccess 71] 4000000, [0; 1]%nat)] [] [true; true]) = false.
 Proof. split; vm_compute; reflexivity. Qed.
